@@ -180,9 +180,29 @@ def run(ctx):
             env["VERIF_SEED"] = replay_seed if replay_seed is not None else ctx.seed
         elif leg == "dag":
             env["VERIF_CORPUS"] = os.path.join(os.path.dirname(os.path.dirname(os.path.abspath(__file__))), "harness", "corpus", "C06")
-        rc, log, out = ctx.run_harness(binary, test, env, outdir=os.path.join(ctx.scratch, "out_" + leg), timeout=3000)
+        # a check never runs unbounded: a few times the normal duration of the leg (quick ~10 s, thorough ~2 min)
+        limit = 2400 if ctx.thorough else 300
+        outdir = os.path.join(ctx.scratch, "out_" + leg)
+        try:
+            rc, log, out = ctx.run_harness(binary, test, env, outdir=outdir, timeout=limit)
+        except Exception as e:   # subprocess.TimeoutExpired: the go test timeout did not fire either
+            rc, log, out = 98, f"harness killed after {limit + 60}s: {e!r}", outdir
         if rc != 0:
+            # a hang (per-op watchdog / schedule step limit: exit 97 and a `hang:` line; or the go test timeout) is a finding of its
+            # own: the ops written so far are the replay, the last one is the op that did not return
+            so_far = [l for l in (ctx.read_lines(os.path.join(out, "ops.jsonl")) if os.path.exists(os.path.join(out, "ops.jsonl")) else []) if l]
+            done = ctx.read_lines(os.path.join(out, "impl.out")) if os.path.exists(os.path.join(out, "impl.out")) else []
+            hang = rc in (97, 98) or "test timed out" in log or any(l.startswith("hang:") for l in done[-3:])
             ctx.oblige("harness-runs:" + leg, False, log[-1500:])
+            if hang and so_far:
+                k = len(so_far) - 1
+                while k > 0 and json.loads(so_far[k]).get("op") != "new":
+                    k -= 1
+                last = json.loads(so_far[-1])
+                what = next((l for l in reversed(done) if l.startswith("hang:")), "the leg's time limit was reached")
+                ctx.violation("C06:hang:" + str(last.get("op")), f"leg {leg}: the implementation did not return ({what[:300]}); last op: {last.get('op')} "
+                              f"{((last.get('call') or {}).get('note') or last.get('note') or '')}", "hang-" + leg + ".jsonl",
+                              json.dumps({"op": "meta", "leg": leg, "seed": ctx.seed}) + "\n" + "\n".join(so_far[k:]))
             continue
         ctx.oblige("harness-runs:" + leg, True)
         ops_p, impl_p, model_p = (os.path.join(out, x) for x in ("ops.jsonl", "impl.out", "model.out"))
